@@ -29,9 +29,43 @@ CONSTRUCTORS = ('new', 'from_vec', 'from_backing')
 KILLING_CALLS = ('Vec::<T, A>::clear', 'Vec::<T>::clear')
 
 
+def self_aliases(b):
+    """locals that hold `self` itself: local 1, and locals assigned exactly once from such a local by a move, a copy or a
+    re-borrow `&mut *x` (what is left of a `&mut self` helper after it was inlined)"""
+    blocks = b.blocks if hasattr(b, 'blocks') else b['blocks']
+    defs = {}
+    for blk in blocks:
+        for s in blk['st']:
+            if s['k'] == 'assign' and not s['p']['pr']:
+                defs.setdefault(s['p']['l'], []).append(s['rv'])
+        t = blk['t']
+        if t['k'] == 'call' and t.get('dest') is not None and not t['dest']['pr']:
+            defs.setdefault(t['dest']['l'], []).append({'k': 'call'})
+    al = {1}
+    grew = True
+    while grew:
+        grew = False
+        for l, rvs in defs.items():
+            if l in al or len(rvs) != 1:
+                continue
+            rv = rvs[0]
+            src = None
+            if rv.get('k') == 'use' and rv['o'].get('k') in ('move', 'copy') and not rv['o']['p']['pr']:
+                src = rv['o']['p']['l']
+            elif rv.get('k') == 'ref' and [e.get('k') for e in rv['p']['pr']] == ['deref']:
+                src = rv['p']['l']
+            if src in al:
+                al.add(l)
+                grew = True
+    return al
+
+
+_ALIASES = {1}
+
+
 def _self_field(place):
-    """field name when the place is (*self).<field>[...] with self = local 1, else None"""
-    if place is None or place.get('l') != 1:
+    """field name when the place is (*self).<field>[...] with self = local 1 (or an alias of it), else None"""
+    if place is None or place.get('l') not in _ALIASES:
         return None
     pr = place.get('pr') or []
     i = 0
@@ -82,8 +116,10 @@ class MethodFacts:
     borrow / call destination: mutation that also depends on the old value), read"""
 
     def __init__(self, b):
+        global _ALIASES
         self.b = b
         self.ev = []
+        _ALIASES = self_aliases(b)
         for bi, blk in enumerate(b.blocks):
             for k2, s in enumerate(blk['st']):
                 if s['k'] != 'assign':
